@@ -421,7 +421,16 @@ def run_unit(name, unit_props, rlimit=None, extra_args=(), gen_dir=None, timeout
             item = rsx.find_item(src, key.split(" :: ", 1)[1], toks)
             nclauses = count_clauses(ov_text.get(key, ""))
             nimpl = count_implicit(src[item.body_open:item.end])
+            extra = {}
+            if it["file"].startswith("dep:"):
+                # pinned dependency source: where it was read from and the checksum Cargo.lock pins
+                name = it["file"][4:].split("/", 1)[0]
+                lock = open(os.path.join(assemble.REPO, "Cargo.lock")).read()
+                mm = re.search(r'name = "%s"\nversion = "([^"]+)"\nsource = "[^"]*"\nchecksum = "([0-9a-f]+)"' % re.escape(name), lock)
+                extra = {"dependency_source": assemble.resolve_file(it["file"]),
+                         "cargo_lock_pin": ("%s %s checksum %s" % (name, mm.group(1), mm.group(2))) if mm else "not found in Cargo.lock"}
             res.functions.append({
+                **extra,
                 "function": label, "item": key, "lines": "%s:%d-%d" % (it["file"], it["lines"][0], it["lines"][1]),
                 "sha256": it["sha256"], "backend": "verus/z3", "label": "proved-unbounded",
                 "success": bool(fb["success"]) if fb else None,
